@@ -63,6 +63,8 @@ def run(tier):
     from props import c03 as c03mod
     jobs = [["recon-x", "--grid", 360, "--nbhd", 10, "--targets", "arduino"], ["tz2025b", "--grid", 360, "--nbhd", 10, "--targets", "arduino"],
             ["features", "--grid", 360 if q else 60, "--nbhd", 10, "--targets", "arduino"]]    # features.zi has a zone-year that needs all five basic slots
+    # "compiler-generated" is not only the default year range: seed-derived subsets compiled for 2000..2038 / 2010..2030 as well
+    jobs += [["mutant", "--seed", seed, "--index", i, "--grid", 360, "--nbhd", 10, "--targets", "arduino"] for i in range(6 if q else 60)]
     gen_zones = 0
     for argv, r in c03mod.run_workers(jobs, parallel=len(jobs), jobs_each=max(2, N // len(jobs))):
         for inc in r["inconclusive"]:
@@ -73,6 +75,11 @@ def run(tier):
                     or k.startswith(("asan:", "ubsan:")):
                 v.violation("c09:generated:" + k.split(":", 1)[1] if k.startswith("c03:") else k,
                             "freshly generated tables: " + viol["what"], viol.get("witness"))
+        for w in r["stats"].get("edge_year_high_water", []):
+            v.violation("c09:generated:buffer-size-reached-in-an-edge-year-of-a-non-default-range",
+                        "a zone compiled for a year range other than 2000..2050 reaches its recorded transition buffer size in the year before the first "
+                        "or after the last compiled year, which the processor accepts and the compiler's estimator does not look at", w)
+            tot["generated.edge_year_high_water"] = tot.get("generated.edge_year_high_water", 0) + 1
         gen_zones += int(r["stats"].get("ar.sweep.zones", 0))
         tot["generated.%s.zones" % argv[0]] = int(r["stats"].get("ar.sweep.zones", 0))
         tot["generated.%s.max_high_water" % argv[0]] = int(r["stats"].get("ar.max_high_water", -1))
